@@ -72,14 +72,21 @@ def check_props_file(relpath, workdir, tier):
     # Print Assumptions output: either "Closed under the global context" or "Axioms:" + lines
     chunks = re.split(r"(?=Closed under the global context|Axioms:)", r.stdout)
     ax_all = set()
+    ax_blocks = 0
     for ch in chunks:
         if ch.startswith("Closed under"):
             closed += 1
         elif ch.startswith("Axioms:"):
+            ax_blocks += 1
             for m in re.finditer(r"^([A-Za-z0-9_.']+)\s*:", ch[len("Axioms:"):], flags=re.M):
                 ax_all.add(m.group(1))
+    stderr = r.stderr[-2000:]
+    if ok and closed + ax_blocks < len(theorems):
+        # fail closed: every property theorem must be followed by its Print Assumptions report
+        ok = False
+        stderr += "\n%d theorems but only %d Print Assumptions reports in %s" % (len(theorems), closed + ax_blocks, relpath)
     res = dict(ok=ok, theorems=theorems, closed=closed, axioms=sorted(ax_all),
-               stderr=r.stderr[-2000:], cmd="coqc -R coq GT %s (after make -C coq)" % relpath)
+               stderr=stderr, cmd="coqc -R coq GT %s (after make -C coq)" % relpath)
     if tier == "thorough" and ok:
         vo = relpath[:-2].replace("/", ".")
         rc = sh("timeout 3000 coqchk -silent -o -R %s GT GT.%s 2>&1" % (COQ, vo), 3100, cwd=COQ)
